@@ -466,6 +466,34 @@ pub fn ladder_texts() -> Vec<String> {
     out
 }
 
+/// The interpreter is generic in its inexact type; with binary64 reals a decimal literal denotes
+/// the binary64 nearest to it (not the binary32 widened). Decimals of every shape and length,
+/// alone and inside quoted data.
+fn wide_reals(acc: &mut Acc) {
+    let mut texts: Vec<String> = ["0.1", "-0.1", "1e100", "1e-300", "2.5e-3", "3.141592653589793", "1.7976931348623157e308", "5e-324", "16777217.0", "0.30000000000000004", "123456789.123456789", ".5", "1.", "-0.0", "1e22", "1e23"].iter().map(|s| s.to_string()).collect();
+    for n in 1..=40usize {
+        texts.push(format!("0.{}1", "0".repeat(n)));
+        texts.push(format!("1{}.5", "0".repeat(n)));
+        texts.push(format!("0.{}", "3".repeat(n)));
+    }
+    let mut it = ruschm::interpreter::Interpreter::<f64>::new_with_stdlib();
+    for t in texts {
+        let want: f64 = match t.parse() {
+            Ok(w) => w,
+            Err(_) => continue,
+        };
+        for form in [t.clone(), format!("(car '({} a))", t), format!("(vector-ref '#(0 {}) 1)", t)] {
+            acc.evals += 1;
+            acc.count("binary64 instance: decimal literals", 1);
+            let got = crate::drive::guarded(|| it.eval(form.chars()));
+            let ok = matches!(&got, Ok(Ok(Some(ruschm::values::Value::Number(ruschm::values::Number::Real(x))))) if x.to_bits() == want.to_bits());
+            if !ok {
+                acc.mismatch(Mismatch { idx: u64::MAX - 300, case: format!("[binary64 instance] {}", form), expected: format!(": the binary64 nearest to the decimal, {:?}", want), observed: format!("{:?}", got.map(|r| r.map(|v| v.map(|x| x.to_string())).map_err(|e| e.to_string()))), payload: json!({"kind": "wide-real", "text": form}) }, None);
+            }
+        }
+    }
+}
+
 pub fn run(ctx: &Ctx) -> i32 {
     let maxlen: usize = std::env::var("C06_LEN").ok().and_then(|s| s.parse().ok()).unwrap_or(if ctx.thorough() { 6 } else { 5 });
     let read_len = if ctx.thorough() { 5 } else { 4 };
@@ -559,6 +587,8 @@ pub fn run(ctx: &Ctx) -> i32 {
             }
         },
     );
+    let mut acc = acc;
+    wide_reals(&mut acc);
     report::finish(
         acc,
         RunInfo {
@@ -566,7 +596,7 @@ pub fn run(ctx: &Ctx) -> i32 {
             tier: ctx.tier_name(),
             seed: ctx.seed,
             exhaustive: true,
-            rule: format!("(1) every string of length <= {} over the alphabet {:?} at lexer level (tokens) and, up to length {}, at reader level ('TEXT through eval); (2) every ordered pair of {} token representatives x {} separators x 5 contexts; (3) every datum tree (12 leaf kinds, lists, dotted tails, vectors, quote) up to the node bound under every layout plan (all separator assignments for few gaps, single-gap deviations + uniform layouts otherwise); (4) every ASCII character 0x20-0x7e, tab, CR, LF - and every ordered pair of them - inserted after each of {} prefixes that leave the scanner inside each token class, followed by each suffix; (5) one quoted list of N copies of each of {} elements for every N <= 300 and N-fold nested lists / dotted lists / vectors for every N <= 150; texts of (2)-(5) that contain line breaks or end in a blank are also read from a FILE (eval_file) and must denote the same datum as the LF-normalised text; distinct = distinct token sequences / values", maxlen, ALPHABET, read_len, TOKEN_REPS.len(), SEPARATORS.len(), STATE_PREFIXES.len(), LADDER_ELEMENTS.len()),
+            rule: format!("(1) every string of length <= {} over the alphabet {:?} at lexer level (tokens) and, up to length {}, at reader level ('TEXT through eval); (2) every ordered pair of {} token representatives x {} separators x 5 contexts; (3) every datum tree (12 leaf kinds, lists, dotted tails, vectors, quote) up to the node bound under every layout plan (all separator assignments for few gaps, single-gap deviations + uniform layouts otherwise); (4) every ASCII character 0x20-0x7e, tab, CR, LF - and every ordered pair of them - inserted after each of {} prefixes that leave the scanner inside each token class, followed by each suffix; (5) one quoted list of N copies of each of {} elements for every N <= 300 and N-fold nested lists / dotted lists / vectors for every N <= 150; texts of (2)-(5) that contain line breaks or end in a blank are also read from a FILE (eval_file) and must denote the same datum as the LF-normalised text; distinct = distinct token sequences / values; token-length ladder (digit runs <= 60, identifiers / strings / |symbols| <= 300); decimal literals of every shape read by the binary64 instance of the interpreter", maxlen, ALPHABET, read_len, TOKEN_REPS.len(), SEPARATORS.len(), STATE_PREFIXES.len(), LADDER_ELEMENTS.len()),
             bounds: json!({"strings": n_strings, "max_len": maxlen, "reader_level_max_len": read_len, "pair_texts": pairs.len(), "tree_texts": treetexts.len(), "ascii_state_texts": n_state, "long_texts": statetexts.len() - n_state}),
             assumptions: vec!["reflex: R7RS 7.1.1 restricted to the supported token classes, self-tested on the repository's own lexer vectors; texts using unsupported lexical syntax are only counted".into()],
             wall_s: ctx.elapsed(),
